@@ -14,6 +14,7 @@ pub mod record;
 pub mod reporters;
 pub mod runa;
 pub mod runb;
+pub mod runp;
 #[cfg(feature = "tracing")]
 pub mod runt;
 pub mod shrink;
